@@ -541,6 +541,7 @@ func oracleTraceSeq(h *thist) ([]vk.Violation, map[string]bool) {
 		}
 		want := map[int]string{}
 		var sspWant []int
+		before := names(members)
 		lenient := state == stLimbo
 		allowed := limboSet
 		label := "membership"
@@ -735,7 +736,7 @@ func oracleTraceSeq(h *thist) ([]vk.Violation, map[string]bool) {
 					bad(label, "%s: %s, which was not registered, observed %q", c, name, got)
 				}
 			case got != want[r]:
-				bad(label, "%s: %s observed %q, the model (registered: %v) expects %q  [s=OnStart e=OnEnd d=Shutdown]", c, name, got, names(members), want[r])
+				bad(label, "%s: %s observed %q, the model (registered before the call: %v) expects %q  [s=OnStart e=OnEnd d=Shutdown]", c, name, got, before, want[r])
 			}
 		}
 		if s, ok := esnap[pSSP]; ok {
@@ -947,7 +948,7 @@ func hasCancelledFirstShutdown(p TProg) bool {
 var knownTrace = map[string]func(TProg, vk.Violation) bool{
 	"tp_shutdown_cancelled_ctx_skips_processors": func(p TProg, v vk.Violation) bool {
 		switch v.Kind {
-		case "not_shut_down", "delivery_after_shutdown", "export_after_shutdown":
+		case "not_shut_down", "delivery_after_shutdown", "export_after_shutdown", "call_after_shutdown_failed":
 			return hasCancelledFirstShutdown(p)
 		}
 		return false
@@ -997,7 +998,7 @@ func TestTraceMembership(t *testing.T) {
 		Property: "C15", Check: "trace_membership",
 		Rule: "generated op lists (1-60 ops: Register / Unregister of members, non-members, nil and a never-registered processor of non-comparable type / Tracer / Start / End / ForceFlush / Shutdown with live or already-cancelled contexts, repeated) on a TracerProvider built with 0-4 of a pool of 8 processors (4 recording ones, one of them failing, simple and batch processors around a recording exporter and around nil), each processor registered at most once; exact model of the ordered membership; " +
 			"non-trivial = the program unregisters a non-member or a middle member while the provider is up and makes a Start/End call after a Shutdown with a live context returned nil; distinct = distinct case encodings",
-		Quick: 10000, Thorough: 100000,
+		Quick: 8000, Thorough: 100000,
 		Gen: genTraceSeq, Run: runTraceSeq, Known: knownTrace,
 		CaseTimeout: 30 * time.Second,
 	})
